@@ -924,6 +924,11 @@ var blockRules = map[BlockKind]blockRule{
 			// "Blank lines preceding or following an indented code block are not included in it."
 			for i := block.ChildCount() - 1; i >= 0; i-- {
 				child := block.inlineChildren[i]
+				if child.Kind() == SoftLineBreakKind && child.Span().Len() == 0 && i > 0 {
+					// Synthetic line break of a final line without a line ending:
+					// it goes with that line if the line is blank.
+					child = block.inlineChildren[i-1]
+				}
 				if child.Kind() != TextKind || !isBlankLine(spanSlice(source, child.Span())) {
 					break
 				}
